@@ -452,8 +452,12 @@ def trusted_edge_providers(prog: Program, rep, RID: str):
     n = 0
     for cname in K_MODELS:
         f = prog.own_method(cname, "__init__")
+        # local aliases of the trusted set (`trusted = set(...); options['trusted_edges_for_safety'] = trusted`)
+        trusted_aliases = {st.value.id for st in walk_no_nested(f.node) if isinstance(st, ast.Assign) and isinstance(st.value, ast.Name) and
+                           any(isinstance(t, ast.Subscript) and isinstance(t.slice, ast.Constant) and t.slice.value == "trusted_edges_for_safety" for t in st.targets)}
         for c in calls_in(f.node):
-            if isinstance(c.func, ast.Attribute) and c.func.attr in ("update", "add", "__ior__") and "trusted_edges_for_safety" in norm(c.func.value):
+            if isinstance(c.func, ast.Attribute) and c.func.attr in ("update", "add", "__ior__") and \
+                    ("trusted_edges_for_safety" in norm(c.func.value) or (isinstance(c.func.value, ast.Name) and c.func.value.id in trusted_aliases)):
                 n += 1
                 tests = enclosing_tests(f.node, c)
                 ok = any(pol and implies_full_coverage(t) for t, pol in tests)
@@ -471,6 +475,9 @@ def trusted_edge_providers(prog: Program, rep, RID: str):
                                                   t.slice.value == "trusted_edges_for_safety" for t in st.targets):
                 n += 1
                 v = st.value
+                if isinstance(v, ast.Name):
+                    from rules.common import local_single_defs as _lsd_t
+                    v = _lsd_t(f.node).get(v.id, v)
                 txt = norm(v)
                 key = f"{cname}.__init__:trusted-base"
                 ok = False
